@@ -65,8 +65,60 @@ def plan(tier, seed):
     for mg in mags:
         for c in range(64):
             shards.append(("cfg", tier, mg, c, 64))
+    for c in range(4):
+        shards.append(("sched", tier, mags[0], c, 4))
     k = seed % len(shards)
     return shards[k:] + shards[:k]
+
+
+def _run_sched(desc):
+    """compute_gv / compute_geometry / compute_xlylzl run their peak loop under OpenMP with a long private() list: all schedules
+    (T = 2, 3, bound 2) of the instrumented kernels on 5 peaks for a slice of the configurations must give the 1-thread result,
+    which must equal the Python reference"""
+    _, tier, mg, c, nch = desc
+    from vt.vrt import VRT, check_schedule_independence
+    from ImageD11 import transform as tr
+    sh = Shard()
+    V = VRT()
+    sc, fc, om = peak_table("quick")
+    sc, fc, om = sc[:5].copy(), fc[:5].copy(), om[:5].copy()
+    n = 5
+    for idx, (pars, non) in enumerate(configs(mg)):
+        if idx % 257 != c * 7 % 257 and idx % 1021 != c:
+            continue
+        xyz, tth, eta, ds, g = reference(tr, pars, sc, fc, om)
+        C = tr.Ctransform(pars)
+        case = {"kind": "sched", "mag": mg, "config": idx, "pars": pars}
+        xin = np.ascontiguousarray(xyz.T)
+        t = np.array([pars["t_x"], pars["t_y"], pars["t_z"]])
+        gv = np.full((n, 3), 1e300)
+        ref, res, bad = check_schedule_independence(V, "compute_gv", [xin, om, t, gv, n], [pars["omegasign"], pars["wavelength"], pars["wedge"], pars["chi"]],
+                                                    (), [gv], void=True)
+        # argument order of the C function: (xlylzl, omega, omegasign, wvln, wedge, chi, t, gv, n): pointers/ints and doubles are
+        # assigned to their register classes independently, so the generic trampoline reproduces the call
+        got = np.frombuffer(ref[1], float).reshape(n, 3)
+        if np.abs(got.T - g).max() > 1e-12:
+            sh.violation("compute_gv[vrt build]:differs-from-reference", case, {"max": float(np.abs(got.T - g).max())})
+        for T, sched in bad:
+            sh.violation("compute_gv:schedule-dependent:T=%d" % T, dict(case, schedule=sched), {})
+        out = np.full((n, 6), 1e300)
+        ref2, res2, bad2 = check_schedule_independence(V, "compute_geometry", [xin, om, t, out, n],
+                                                       [pars["omegasign"], pars["wavelength"], pars["wedge"], pars["chi"]], (), [out], void=True)
+        got2 = np.frombuffer(ref2[1], float).reshape(n, 6)
+        if np.abs(got2[:, 3:6].T - g).max() > 1e-12 or np.abs(got2[:, 0] - tth).max() > 1e-9:
+            sh.violation("compute_geometry[vrt build]:differs-from-reference", case, {})
+        for T, sched in bad2:
+            sh.violation("compute_geometry:schedule-dependent:T=%d" % T, dict(case, schedule=sched), {})
+        for r in res + res2:
+            sh.states += r["nodes"]
+            sh.transitions += r["nodes"] - 1 + r["executions"]
+            sh.count("schedule_executions", r["total_executions"])
+            sh.count("conflict_words", r["filter_size"])
+        sh.evaluations += 1
+        if non >= 2:
+            sh.nontrivial += 1
+    sh.sample({"kind": "sched", "kernels": ["compute_gv", "compute_geometry"], "threads": [2, 3], "bound": 2}, limit=1)
+    return sh
 
 
 def circ(a, b):
@@ -202,6 +254,8 @@ def _mods():
 
 
 def run_shard(desc):
+    if desc[0] == "sched":
+        return _run_sched(desc)
     _, tier, mg, c, nch = desc
     mods = _mods()
     sh = Shard()
